@@ -270,3 +270,104 @@ def interleaved_history(seed, nblocks=12):
             cmds.append(c)
     sc["cmds"] = cmds
     return sc
+
+
+# ---------------------------------------------------------------------------------------------
+# C16 / C19
+# ---------------------------------------------------------------------------------------------
+def rand_fees(rng):
+    """A small fee table (all arithmetic stays below 2^31) with maximum >= base."""
+    def trio():
+        base = rng.choice([0, 0, 1, 7, 50, 1000])
+        rate = rng.choice([0, 1, 3, 10])
+        mx = base + rng.choice([0, 0, 1, 5, 100, 5000, 1000000])
+        return base, rate, mx
+    ub, ur, um = trio()
+    hb, hr, hm = trio()
+    bal = rng.choice([0, 1, 10, 400])
+    pct = rng.choice([0, 1, 10, 400])
+    return {"ub": ub, "ur": ur, "um": um, "bal": bal, "balm": bal + rng.choice([0, 0, 3, 1000]),
+            "pct": pct, "pctm": pct + rng.choice([0, 0, 3, 1000]), "hb": hb, "hr": hr, "hm": hm,
+            "sb": rng.choice([0, 5, 2000]), "sp": rng.choice([0, 1, 8, 20])}
+
+
+def _pay(rng, fees, key_max):
+    """Cycles attached to a call: around the endpoint's maximum."""
+    m = fees[key_max]
+    return rng.choice([-1, -1, m, m + 1, max(0, m - 1), 0, m // 2])
+
+
+def cycles_history(seed, nblocks=8):
+    rng = random.Random(seed)
+    sc = gen.random_history(seed, nblocks=nblocks, heavy_probes=False, defects=False, upgrades=False,
+                            net=rng.choice(["regtest", "regtest", "mainnet", "testnet"]), name=f"cycles-{seed}",
+                            full=None)
+    fees = rand_fees(rng)
+    sc["config"]["fees"] = fees
+    naddr = len(sc["addrs"])
+    cmds = []
+    for c in sc["cmds"]:
+        if c.get("c") == "q" and c.get("ep") in ("utxos", "balance", "headers", "fees"):
+            c = dict(c)
+            c["instr"] = rng.choice([0, 5, 9, 10, 19, 100, 1234, 99999, 1000000])
+            key = {"utxos": "um", "balance": "balm", "headers": "hm", "fees": "pctm"}[c["ep"]]
+            c["avail"] = _pay(rng, fees, key)
+            if c.get("ep") == "utxos":
+                c["limit"] = 0
+        cmds.append(c)
+        if c.get("c") in ("hb", "ingest") and rng.random() < 0.3:
+            # error outcomes: malformed / wrong-network address, too large min_confirmations, bad ranges
+            ins = rng.choice([0, 10, 777, 50000])
+            cmds.append(q("utxos", addr=rng.choice(["malformed", "wrongnet", rng.randint(1, naddr)]), mc=rng.choice([-1, 0, 50]),
+                          instr=ins, avail=_pay(rng, fees, "um"), mode=rng.choice(["update", "update", "query"])))
+            cmds.append(q("balance", addr=rng.choice(["malformed", "wrongnet", rng.randint(1, naddr)]), mc=rng.choice([-1, 0, 50]),
+                          instr=ins, avail=_pay(rng, fees, "balm"), mode=rng.choice(["update", "update", "query"])))
+            cmds.append(q("headers", s=rng.choice([0, 1, 99]), e=rng.choice([-1, 0, 99]), instr=ins, avail=_pay(rng, fees, "hm")))
+            cmds.append(q("fees", instr=ins, avail=_pay(rng, fees, "pctm")))
+        if rng.random() < 0.05:
+            fees = rand_fees(rng)
+            cmds.append({"c": "set_config", "d": {"fees": fees}})
+        if rng.random() < 0.1:
+            cmds += send_tx_cmds(rng, fees, 2)
+    sc["cmds"] = cmds
+    return sc
+
+
+MUTS = ["exact", "exact", "trunc", "extend", "flip", "flip", "garbage", "empty", "prepend"]
+
+
+def send_tx_cmds(rng, fees, n, nets=None):
+    out = []
+    for _ in range(n):
+        k = rng.choice(MUTS)
+        mut = {"k": k}
+        if k == "trunc":
+            mut["n"] = rng.choice([1, 1, 2, 4, 9, 40])
+        elif k in ("extend", "prepend"):
+            mut["hex"] = bytes(rng.getrandbits(8) for _ in range(rng.choice([1, 1, 2, 4, 60]))).hex()
+        elif k == "flip":
+            mut["bit"] = rng.randint(0, 4000)
+        elif k == "garbage":
+            mut["len"] = rng.choice([1, 4, 10, 60, 200])
+        tx = {"nin": rng.choice([0, 1, 1, 2, 3]), "nout": rng.choice([0, 1, 1, 2, 4]), "w": rng.random() < 0.5, "salt": rng.randint(0, 1000)}
+        cmd = {"c": "send_tx", "tx": tx, "mut": mut}
+        if nets:
+            cmd["net"] = rng.choice(nets)
+        if fees is not None:
+            cmd["avail"] = rng.choice([-1, -1, -1, 0, fees["sb"], fees["sb"] + fees["sp"] * 60, fees["sb"] + fees["sp"] * 5000])
+        out.append(cmd)
+    return out
+
+
+def sendtx_history(seed, n=120):
+    rng = random.Random(seed)
+    net = rng.choice(["regtest", "mainnet", "testnet"])
+    w = gen.World(rng, net=net, naddr=2, prefix_pair=False)
+    fees = rand_fees(rng)
+    cmds = [{"c": "tick", "dt": 100000}]
+    others = [x for x in ["regtest", "mainnet", "testnet", "Regtest", "Mainnet", "Testnet"]]
+    for i in range(n):
+        if rng.random() < 0.06:
+            cmds.append({"c": "set_config", "d": rng.choice([{"api": False}, {"api": True}, {"api": True}, {"gate": True}, {"fees": rand_fees(rng)}])})
+        cmds += send_tx_cmds(rng, fees if rng.random() < 0.5 else None, 1, nets=[net] * 6 + others)
+    return w.scenario(f"sendtx-{net}-{seed}", {"thr": 2, "seed": seed, "fees": fees, "book": False}, cmds)
